@@ -58,6 +58,22 @@ let run_message_api (f : string array) : string =
   ^ ":" ^ string_of_n (msg_len m) ^ ":" ^ b (msg_is_empty m) ^ ":" ^ hex_of_bytes (msg_into_data m)
   ^ ":" ^ t ^ ":" ^ t ^ ":" ^ hex_of_bytes (msg_display m) ^ ":" ^ hex_of_bytes (msg_into_data m) ^ ":1"
 
+(* RB id chunk_size part ops rds : ReadBuf.rb_run *)
+let run_readbuf (f : string array) : string =
+  let cs = n_of_string f.(2) in
+  let part = bytes_of_hex f.(3) in
+  let ops = List.map (fun o -> match split ':' o with
+      | ["rf"] -> RbRead | ["ad"; n] -> RbAdvance (n_of_string n) | ["ch"] -> RbChunk | ["rm"] -> RbRemaining
+      | _ -> failwith "rb op") (list_of_field f.(4)) in
+  let rds = List.map rd_of_string (list_of_field f.(5)) in
+  let (outs, fin) = rb_run cs (rb_from_partially_read part) ops rds in
+  let toks = List.map (function
+      | RbN r -> res_s (fun n -> "ok:" ^ string_of_n n) r
+      | RbBytes b -> "b:" ^ hex_of_bytes b
+      | RbPanic -> "panic") outs in
+  let toks = match fin with Some rb -> toks @ ["iv:" ^ hex_of_bytes (rb_into_vec rb)] | None -> toks in
+  String.concat " | " toks
+
 (* FS id pre ops rds wrs fls : FrameSocket ops  r:<max|none> | w:<flags>:<opc>:<mask>:<hex> | s:<flags>:<opc>:<mask>:<hex> | f *)
 let fs_op_of (s : string) : fs_op =
   match split ':' s with
@@ -105,7 +121,7 @@ let run_socket_digest (f : string array) : string =
 let () =
   let handlers : (string * (string array -> string)) list ref = ref [
     ("S", run_socket); ("SI", run_socket_x); ("SDG", run_socket_digest); ("FS", run_framesocket); ("CC", run_closecode); ("HP", run_header_parse); ("HF", run_header_format);
-    ("FF", run_frame_format); ("U8", run_utf8); ("MK", run_mask); ("MA", run_message_api) ] in
+    ("FF", run_frame_format); ("U8", run_utf8); ("MK", run_mask); ("MA", run_message_api); ("RB", run_readbuf) ] in
   handlers := !handlers @ Driver_hs.handlers;
   try
     while true do
